@@ -60,6 +60,7 @@ func (e *c10env) sharedAttrs(r *gen.R) *sharedAttrsT {
 
 type c10env struct {
 	skipClash string
+	anonSpec  []any // the argument list for anonymous children that the application re-uses
 	shared    []*sharedAttrsT
 	log       *mon.Log
 	pool      []io.Writer
@@ -269,12 +270,50 @@ func (e *c10env) ops() []c10op {
 		}},
 		{"New(anonymous)", func(e *c10env, t *mnode) (*mnode, *slog.Entry, bool) {
 			var ent *slog.Entry
-			if r.Bool() {
+			switch r.Intn(3) {
+			case 0:
 				ent = t.e.New()
-			} else {
+			case 1:
 				ent = t.e.New("")
+			default:
+				// ONE argument list that the application keeps and passes again and again (a "spec" for anonymous children)
+				if e.anonSpec == nil {
+					e.anonSpec = make([]any, 1, 4)
+					e.anonSpec[0] = ""
+				}
+				ent = t.e.New(e.anonSpec...)
+			}
+			for _, n := range e.nodes {
+				if n.e == ent {
+					e.skipClash = fmt.Sprintf("WithWriter(nil) New() without a name on %s did not create a logger: it handed out the existing logger %q", t.name, n.name)
+					return nil, ent, false
+				}
 			}
 			return e.add(t, ent), ent, false
+		}},
+		{"Close the writers of a throwaway detached logger", func(e *c10env, t *mnode) (*mnode, *slog.Entry, bool) {
+			// some OTHER part of the application makes a logger of its own (package-level New: it writes to the process's
+			// stdout / stderr), uses it and closes what its writers hand out at shutdown. No business of any logger here.
+			e.seq++
+			x := slog.New(fmt.Sprintf("throwaway%d", e.seq)).Root()
+			// it has a writer set OF ITS OWN (a logger that never got writers uses the package's default device, which all
+			// such loggers share by design: closing THAT is not an operation on one logger, DESIGN section 6)
+			if r.Bool() {
+				x.ResetWriters()
+			} else {
+				x.SetErrorWriter(io.Discard)
+				x.AddWriter(io.Discard)
+			}
+			x.Print("a record of the throwaway logger's own") // (goes to the process's stdout: captured, not judged)
+			func() {
+				defer func() { _ = recover() }()
+				for _, lv := range []slog.Level{slog.InfoLevel, slog.ErrorLevel} {
+					if cl, ok := x.GetWriterBy(lv).(io.Closer); ok {
+						_ = cl.Close()
+					}
+				}
+			}()
+			return nil, t.e, false
 		}},
 		{"WithJSONMode", func(e *c10env, t *mnode) (*mnode, *slog.Entry, bool) {
 			b, m := modeArgs(r)
